@@ -96,7 +96,9 @@ func c11(c *Ctx) {
 			ks = append(ks, k)
 			addrs = append(addrs, k.Addr)
 		}
-		cfg := testConfig(realm, addrs, []int32{18})
+		// the TGT session key is of another type every trial: AES is read in assembly, which the race detector does not
+		// see; rc4 and des3 are Go code
+		cfg := testConfig(realm, addrs, []int32{[]int32{18, 23, 16}[trial%3]})
 		if trial%6 == 4 {
 			cfg.LibDefaults.Clockskew = time.Hour
 			if trial%12 == 4 {
@@ -134,6 +136,12 @@ func c11(c *Ctx) {
 				<-start
 				time.Sleep(time.Duration(seeds[g]%2000) * time.Microsecond)
 				for op := 0; op < 6; op++ {
+					if withDestroy && g == 0 && op == 3 {
+						// in every fourth trial the client is destroyed while the other goroutines are in the middle of
+						// their requests
+						cl.Destroy()
+						continue
+					}
 					switch (seeds[g] >> uint(4*op)) % 8 {
 					case 0, 1, 2, 3, 4:
 						s := spns[(seeds[g]>>uint(3*op+7))%4]
